@@ -54,6 +54,17 @@ FIXED += [
   'Pack with DereferenceSymlinks never returned on a link to the parent of the source directory (or any external directory leading back to a directory being walked)'),
 ]
 
+FIXED += [
+ ("C03", "pack:excluded-file-shipped:regexp-metacharacter", "fix: match '+', parentheses, '|' and braces in ignore patterns literally",
+  'rule "a+b" did not exclude file a+b (and excluded aab instead)'),
+ ("C03", "pack:included-file-missing:star-segment", "fix: a whole-segment '*' in an ignore pattern must not match the empty string",
+  'rule "d/*" pruned all of d/ (d/x/y vanished) unless an unrelated negation rule followed'),
+ ("C03", "pack-dereferenced-dir:excluded-file-shipped", "fix: apply ignore rules to the path an entry has inside the slug",
+  'with extdir -> ../ext dereferenced, rule "/extdir/secret.txt" did not exclude extdir/secret.txt and "/other.txt" excluded extdir/other.txt'),
+ ("C03", "bundle:included-file-missing", "fix: bundle builder removes whole directories only for dominating ignore rules",
+  'the bundle builder deleted .terraform/modules/** and every re-included file below an excluded directory; rule "foo" matching a non-empty directory made the build fail'),
+]
+
 OPEN = [
  ("C04", "dotdot-after-symlink-component",
   'a link whose target applies ".." after a component that is itself a symlink in dst (e.g. "d/l -> .." together with "m -> d/l/../secret", in either order) is accepted because targets are validated lexically; the operating system resolves m to a location outside dst. No entry can be written through such a link any more (see the fixed C01 entries), but the link itself remains'),
